@@ -2,7 +2,7 @@
 from __future__ import annotations
 import os
 from .common import *
-from . import kani_engine, mirsym_engine
+from . import kani_engine, mirsym_engine, cfabmc_engine
 
 FMT = "std::fmt::format -> empty String"
 TRC = ["tracing_core::callsite::DefaultCallsite::register -> Interest::never",
@@ -199,17 +199,98 @@ PROPERTIES["C19"] = {
     "outside": "actor timers, io_uring backend, encrypted framers",
 }
 
+CFA_TRUST = [
+    "CFAs are extracted by executing the real MIR of each operation with mirsym; only the shared-state vocabulary is hand-written: AtomicUsize fetch_add/fetch_sub/load/store as a sequentially consistent cell, fibre spsc/mpmc channels as linearizable bounded FIFOs (try_send Full iff len == capacity, awaited send/recv block until possible), Arc/Weak as plain pointers",
+    "weak-memory effects below SeqCst and fibre's / tokio's own lock-free internals are outside the claim",
+    "channel-closed outcomes and pipe deregistration are not part of the scenarios",
+]
+
+PROPERTIES["C08"] = {
+    "cfabmc": [
+        dict(name="c08_rpq_interleavings", module="verifkit.cfabmc.rpq_check",
+             scenarios={
+                 "quick": [dict(npipes=1, cap=2, ready_cap=1, items_per_producer=2, consumer_calls=2)],
+                 "thorough": [dict(npipes=1, cap=2, ready_cap=1, items_per_producer=2, consumer_calls=2),
+                              dict(npipes=1, cap=1, ready_cap=1, items_per_producer=2, consumer_calls=2),
+                              dict(npipes=1, cap=2, ready_cap=1, items_per_producer=2, consumer_calls=3)],
+             },
+             timeout_ms={"quick": 900000, "thorough": 3600000}, tiers=("quick", "thorough")),
+    ],
+    "assumptions": CFA_TRUST,
+    "manifest": {
+        "engine": "cfabmc",
+        "technique": "bounded model checking of interleavings (z3, QF_BV): control-flow automata of send/try_send/pop/try_pop extracted from MIR, scheduler choice per step as solver variable",
+        "text": "For one producer sending 2 items using the async or the non-blocking enqueue path (solver's choice per call) and a consumer using pop/try_pop (solver's choice, last call blocking), over ALL interleavings of the individual channel and counter operations within K steps: no state with all producers done, the consumer parked on an empty ready list and a message still queued (lost wake-up); no counter underflow; reserved_count >= queued_count; debug_assert!(prev > 0) unreachable; spin/retry loops stay within the extraction bound.",
+        "design_ref": "DESIGN.md §5 C08",
+        "note": "Bounds: ONE pipe (one producer, one consumer), 2 items, pipe capacity 2 (quick) and also capacity 1 / 3 dequeue calls (thorough); scenarios with two pipes did not finish within an hour of solver time and are NOT covered. try_send_batch, cancellation of a blocked dequeue, deregister_pipe/close, wait_for_connection and WaitGroup are NOT covered. Counterexample schedules are printed; they are not replayed natively (no scheduling hook in the repo), so a reported schedule is a solver witness over the extracted CFAs.",
+    },
+    "outside": "try_send_batch, cancellation, deregistration/close, more than 2 producers, fibre internals",
+}
+
+PROPERTIES["C12"] = {
+    "mirsym": [
+        M("c12_trie_history", "d_c12", "history",
+          {"quick": "all histories of 3 subscribe/unsubscribe calls over topics of length 0..2 (symbolic bytes, alphabet of 2 values so that prefixes collide), after every call matches() checked for every message of length 0..2",
+           "thorough": "topics of length 0..3, messages of length 0..3"},
+          params={"quick": {"ops": 3, "topic_len": 2, "msg_len": 2}, "thorough": {"ops": 3, "topic_len": 3, "msg_len": 3}},
+          budget={"quick": 600, "thorough": 3300}, required_covers=["c12.match", "c12.no-match"]),
+    ],
+    "assumptions": MIRSYM_TRUST + ["HashMap<u8, Arc<RwLock<TrieNode>>> is modelled as an association list, AtomicUsize as a sequential cell (single-threaded histories)"],
+    "manifest": {
+        "engine": "mirsym",
+        "technique": "symbolic execution of SubscriptionTrie (MIR, z3) against a multiset-of-prefixes reference over all bounded histories",
+        "text": "matches(t) holds iff some subscription with positive reference count is a byte-prefix of t (empty subscription matches everything), a topic subscribed N times stays active until unsubscribed N times, unsubscribing an inactive topic returns false and changes nothing - for every history within the bound, with topic and message bytes symbolic.",
+        "design_ref": "DESIGN.md §5 C12",
+        "note": "NOT claimed: delivery order / no duplicates on live sockets, publisher never blocking, concurrent matching while the subscription set changes, the filtered enqueue paths of PipeMessageSender.",
+    },
+    "outside": "live PUB/SUB sockets, concurrency, filtered enqueue paths",
+}
+
+PROPERTIES["C13"] = {
+    "mirsym": [
+        M("c13_load_balancer_history", "d_c13", "history",
+          {"quick": "rotation state reached through the real code (0..3 peers, cursor advanced 0..n times), then all sequences of 3 operations from {add(uri), remove(uri), get_next} over 3 URIs",
+           "thorough": "then all sequences of 4 operations"},
+          params={"quick": {"ops": 3}, "thorough": {"ops": 4}}, budget={"quick": 300, "thorough": 1500}, required_covers=["c13.rotation"]),
+    ],
+    "assumptions": MIRSYM_TRUST + ["histories are enumerated by forking (operation and URI choice); URIs are concrete strings, so this obligation is bounded exhaustive execution of the MIR rather than a solver query over symbolic data"],
+    "manifest": {
+        "engine": "mirsym",
+        "technique": "bounded exhaustive execution of LoadBalancer's MIR against an identity-based round-robin reference",
+        "text": "After any bounded history of add/remove/next, the next message goes to the cyclic successor (in join order) of the peer served last; removing a peer neither repeats nor skips a peer; counts are exact; no out-of-bounds.",
+        "design_ref": "DESIGN.md §5 C13",
+        "note": "NOT claimed: skipping of full peers in route_message, wait_for_connection's check-then-wait window, fairness over time on live sockets.",
+    },
+    "outside": "route_message readiness sweep, wait_for_connection, live sockets",
+}
+
+PROPERTIES["C01"] = {
+    "mirsym": [
+        M("c01_egress_buffer_ops", "d_egress", "op_sequences",
+          {"quick": "all sequences of 4 operations from {push(chunk of 1..2 symbolic bytes, msg_count 0..2), push_priority(chunk of 1..2 bytes), partial write of 1..4 bytes}",
+           "thorough": "all sequences of 5 operations"},
+          params={"quick": {"ops": 4, "chunk_len": 2}, "thorough": {"ops": 5, "chunk_len": 2}}, budget={"quick": 300, "thorough": 2400},
+          required_covers=["egress.partial-write", "egress.priority-behind-partial-head"]),
+    ],
+    "assumptions": MIRSYM_TRUST + ["VecDeque is modelled as a list"],
+    "manifest": {
+        "engine": "mirsym",
+        "technique": "symbolic execution of the session's EgressBuffer (MIR, z3) against a reference byte stream under every partial-write split",
+        "text": "The bytes handed to the socket writer are, chunk for chunk, exactly the pushed chunks in order (priority chunks ahead of queued data but never inside a chunk that is partly on the wire), for every split of the stream into partial writes; pending message/byte counters are exact.",
+        "design_ref": "DESIGN.md §5 C01 kernel 1",
+        "note": "Only the write-queue kernel of the property. NOT claimed: batch assembly in the session actor, DEALER pending queue, HWM back-pressure, transports, runtime flavours, end-to-end exactly-once delivery.",
+    },
+    "outside": "everything above the EgressBuffer: actors, pipes, transports",
+}
+PROPERTIES["C19"]["mirsym"].append(PROPERTIES["C01"]["mirsym"][0])
+
 HOOK_COMMITS = ["e6aec85"]
 
 NOT_APPLICABLE = {
-    "C01": "not claimed yet (machinery under construction)",
     "C05": "not claimed yet (machinery under construction)",
-    "C08": "not claimed yet (machinery under construction)",
     "C09": "not claimed yet (machinery under construction)",
     "C10": "not claimed yet (machinery under construction)",
     "C11": "not claimed yet (machinery under construction)",
-    "C12": "not claimed yet (machinery under construction)",
-    "C13": "not claimed yet (machinery under construction)",
     "C14": "SNDTIMEO/RCVTIMEO are wall-clock semantics of tokio timers around channel operations and the buffering bound is an end-to-end quantity across three tasks; there is no function whose symbolic execution states it, and a symbolic timer would verify the stub, not rzmq (DESIGN.md §5 C14)",
     "C15": "LINGER is a multi-actor shutdown protocol over tokio timers, mailboxes and kernel socket buffers; out of reach of solver-based checking of functions (DESIGN.md §5 C15)",
     "C16": "not claimed yet (machinery under construction)",
@@ -228,7 +309,11 @@ def run_mirsym(prop, obls, tier, seed):
     return mirsym_engine.run_obligations(prop, obls, tier, seed)
 
 
-ENGINES = {"kani": run_kani, "mirsym": run_mirsym}
+def run_cfabmc(prop, obls, tier, seed):
+    return cfabmc_engine.run_obligations(prop, obls, tier, seed)
+
+
+ENGINES = {"kani": run_kani, "mirsym": run_mirsym, "cfabmc": run_cfabmc}
 
 
 def replay(prop, result, failure):
